@@ -433,8 +433,20 @@ class SG:
         return "(insert (into (t %s)) (columns %s %s) %s (onconflict (cols %s) %s %s))" % (
             h("p"), h("k"), h("v"), " ".join(rows), h("k"), tw, act), False
 
+    def with_dml(self):
+        """WITH .. INSERT / UPDATE / DELETE: the data-modifying statement is the main statement of a WithQuery (its
+        own dialect forms - function names, NULLS ordering, RETURNING - must be those of the backend)"""
+        r = self.r
+        inner = "(select (col %s) (col %s) (from (t %s))%s)" % (self.col("t", "id"), self.col("t", "a"), h("t"),
+                                                          "".join(" " + w for w in self.where("t", chain_ok=False)))
+        cte = "(cte %s (cols %s %s) %s)" % (h("w"), h("k"), h("v"), inner)
+        dml, _ = r.choice([self.update, self.delete, self.insert])()
+        return "(withq (with %s) %s)" % (cte, dml), False
+
     def statement(self):
         k = self.r.random()
+        if k < 0.06:
+            return self.with_dml()
         if k < 0.55:
             return self.select()
         if k < 0.60 and not self.portable:
